@@ -512,14 +512,8 @@ where
             pos.into()
         };
 
-        let progress = Progress {
-            draw: self.draw_count,
-            chain: self.chain,
-            diverging: info.diverging,
-            tuning: self.adapt.is_tuning(),
-            step_size: self.hamiltonian.step_size(),
-            num_steps: info.num_steps,
-        };
+        // The step size that was used for this draw (adapt may change it below).
+        let step_size = self.hamiltonian.step_size();
 
         // The collector was already fed during mclmc_kernel via register_leapfrog
         // on the sampled steps. Now call adapt with whatever was accumulated.
@@ -538,6 +532,17 @@ where
             // Refresh the collector for the next draw.
             self.collector = self.adapt.new_collector(math);
         }
+
+        // Built after adapt(), as in NutsChain::draw: the strategy only learns in
+        // adapt() that warmup is over, so draw `num_tune` must not be reported as tuning.
+        let progress = Progress {
+            draw: self.draw_count,
+            chain: self.chain,
+            diverging: info.diverging,
+            tuning: self.adapt.is_tuning(),
+            step_size,
+            num_steps: info.num_steps,
+        };
 
         self.draw_count += 1;
         self.state = state;
